@@ -221,7 +221,8 @@ def real_ops(dialect, ops):
     except Exception as e:
         return {'error': exc_cls(e)}
     # tables without a primary key cannot be rendered (`table.pk_index.columns`): abstract object list only
-    return {'ok': real_schema_json(schema)}
+    try: return {'ok': real_schema_json(schema)}
+    except Exception as e: return {'error': 'after-accept:' + exc_cls(e)}
 
 def gen_ops(rng, dialect):
     m = MAXLEN[dialect]
@@ -327,6 +328,12 @@ def directed_ops(dialect):
         for tk in ('table', 'm2mtable'):
             out.append(base + [mk, {'k': tk, 'name': nm}])             # constraint first, table of the same name later
             out.append(base + [{'k': tk, 'name': nm}, mk])             # table first
+    for first in ({'k': 'index', 'table': 't', 'name': None, 'cols': ['a'], 'unique': True}, {'k': 'index', 'table': 't', 'name': None, 'cols': ['a'], 'isPk': True},
+                  {'k': 'index', 'table': 't', 'name': None, 'cols': ['a'], 'isPk': 'auto'}):
+        for later in ({'k': 'index', 'table': 't', 'name': None, 'cols': ['a', 'b']}, {'k': 'index', 'table': 't', 'name': None, 'cols': ['b', 'a'], 'unique': True},
+                      {'k': 'fk', 'table': 't', 'name': None, 'cols': ['a', 'b'], 'parent': 't', 'parentCols': ['a', 'b'], 'index': None},
+                      {'k': 'index', 'table': 't', 'name': 'again', 'cols': ['a'], 'unique': False}):
+            out.append(base + [first, later]); out.append(base + [later, first])
     out.append(base + [{'k': 'index', 'table': 't', 'name': 'same', 'cols': ['a']}, {'k': 'fk', 'table': 't', 'name': 'same', 'cols': ['b'], 'parent': 'u', 'parentCols': ['id'], 'index': False}])
     out.append(base + [{'k': 'fk', 'table': 't', 'name': 'same', 'cols': ['b'], 'parent': 'u', 'parentCols': ['id'], 'index': False}, {'k': 'index', 'table': 't', 'name': 'same', 'cols': ['a']}])
     out.append(base + [{'k': 'fk', 'table': 't', 'name': 'same', 'cols': ['b'], 'parent': 'u', 'parentCols': ['id'], 'index': 'same'}])
@@ -516,6 +523,17 @@ def gen_spec(rng, thorough=False):
         if len(cand) >= 2 and rng.random() < 0.35:
             f = rng.choice(['composite_key', 'composite_index', 'composite_index'])
             e['composites'].append({'f': f, 'attrs': rng.sample(cand, 2)})
+        if e['bases']:      # composite keys / indexes of a subclass over inherited (unique, pk, relationship) attributes
+            inherited = []; todo = list(e['bases'])
+            while todo:
+                bn = todo.pop(); b = next(x for x in ents if x['name'] == bn)
+                inherited += [b['name'] + '.' + a['name'] for a in b['attrs'] if a['kind'] in ('Required', 'Optional', 'PrimaryKey')]
+                todo += list(b['bases'] or [])
+            if inherited and rng.random() < 0.6:
+                f = rng.choice(['composite_key', 'composite_index'])
+                k = rng.choice([1, 1, 2])
+                picked = rng.sample(inherited, min(k, len(inherited))) + (rng.sample(cand, 1) if cand else [])
+                if len(set(picked)) >= 2: e['composites'].append({'f': f, 'attrs': rng.sample(picked, len(picked))})
         req = [a['name'] for a in e['attrs'] if a['kind'] == 'Required' and a.get('type') != 'float']
         if is_root(e) and not e['own_pk'] and len(req) >= 2 and rng.random() < 0.3:
             e['composites'].append({'f': 'PrimaryKey', 'attrs': rng.sample(req, 2)}); e['own_pk'] = True
@@ -813,6 +831,14 @@ def sqlite_oracle(ctx, spec, src, res, model_ok):
                 if not any(f['parent'] == pt and f['cols'] == list(a.columns) for f in c['fks']):
                     ctx.violation('relationship attribute has no foreign key in the created table', dict(inp, attr=repr(a)), observed=c['fks'],
                                   expected=[pt, a.columns], key='entity-fk')
+    for entity in db.entities.values():
+        c = cat[entity._table_]
+        for ix in entity._indexes_:
+            if not ix.is_unique or ix.is_pk: continue
+            cols = [col for a in ix.attrs for col in a.columns]
+            if cols and not any(i['unique'] and i['cols'] == cols for i in c['indexes']):
+                ctx.violation('a unique key of the entity model is not enforced by the created table (no UNIQUE constraint / index on its columns)',
+                              dict(inp, entity=entity.__name__, key_columns=cols), observed=[i for i in c['indexes'] if i['unique']], expected=cols, key='entity-unique-key-not-enforced')
     # converse: every UNIQUE constraint / index of the created tables is one the entity model declares
     for tname, c in cat.items():
         declared = set()
@@ -1072,6 +1098,20 @@ FIXED = [
      "class Owner(db.Entity):\n    tag = Required(int, index='shared_name')\n    pets = Set('Pet')\nclass Pet(db.Entity):\n    owner = Required(Owner, fk_name='shared_name')\n"),
     ('indexed-attribute-inside-composite-key',
      "class Alpha(db.Entity):\n    a = Required(int, index=True)\n    b = Required(int)\n    c = Optional(str, index='ix_c')\n    composite_key(a, b)\n    composite_index(b, c)\n"),
+    # subclasses adding composite indexes / keys / attribute indexes over inherited unique, primary-key and relationship attributes
+    ('subclass-composite-index-over-inherited-unique',
+     "class Person(db.Entity):\n    email = Required(str, unique=True)\n    name = Required(str)\nclass Student(Person):\n    group = Optional(int)\n    composite_index(Person.email, group)\n"),
+    ('subclass-composite-key-over-inherited-unique-and-pk',
+     "class Person(db.Entity):\n    code = PrimaryKey(str)\n    email = Required(str, unique=True)\n    nick = Optional(str, unique=True)\n"
+     "class Student(Person):\n    group = Optional(int)\n    composite_key(Person.email, group)\n    composite_index(Person.code, group)\nclass Tutor(Student):\n    room = Optional(int)\n    composite_index(Person.nick, room, Person.email)\n"),
+    ('subclass-composite-index-over-inherited-unique-relationship',
+     "class Dept(db.Entity):\n    head = Optional('Person')\n    members = Set('Person', reverse='dept')\n"
+     "class Person(db.Entity):\n    heads = Required(Dept, reverse='head', unique=True)\n    dept = Optional(Dept, reverse='members')\n    ssn = Required(int, unique=True)\n"
+     "class Student(Person):\n    year = Optional(int)\n    composite_index(Person.heads, year)\n    composite_key(Person.ssn, Person.dept)\n    composite_index(Person.dept, Person.ssn)\n"),
+    ('same-entity-unique-then-composite-and-attribute-index',
+     "class Person(db.Entity):\n    email = Required(str, unique=True, index='ux_email')\n    name = Required(str, index=True)\n    composite_index(name, email)\n    composite_key(email, name)\n"),
+    ('composite-pk-part-unique-and-subclass-index',
+     "class Seat(db.Entity):\n    row = Required(int)\n    num = Required(int, unique=True)\n    PrimaryKey(row, num)\nclass Vip(Seat):\n    perk = Optional(str)\n    composite_index(Seat.num, perk)\n    composite_key(Seat.row, perk)\n"),
     ('symmetric-m2m-table-collides-with-other-link-table',
      "class Node(db.Entity):\n    peers = Set('Node', reverse='peers', table='Edges')\n    inc = Set('Node', reverse='out')\n    out = Set('Node', reverse='inc', table='Edges')\n"),
 ]
@@ -1165,11 +1205,17 @@ def diagrams(ctx):
                             if s == 'norm' and len(nm) > MAXLEN[dialect]:
                                 ctx.divergence('model tags an over-long name as normalised', [dialect, src, nm])
         if 'ok' in out:
+          try:
             if dialect == 'sqlite': check_schema_property(ctx, dialect, out['ok'], explicit_names(res['decls']), {'source': src}, 'generate_mapping')
             if res['linked']: declared_tables_oracle(ctx, dialect, src, res)
             one_to_one_oracle(ctx, dialect, src, res)
             if dialect == 'sqlite': sqlite_oracle(ctx, spec, src, res, model_ok)
             else: ddl_oracle(ctx, spec, src, dialect, res, res['decls'], model_ok)
+          except Exception as e:
+            import traceback
+            ctx.count('oracle-exception:' + exc_cls(e))
+            ctx.violation('an exception escaped from the real code while the accepted mapping was being checked: %s: %s' % (exc_cls(e), str(e)[:200]),
+                          {'source': src, 'dialect': dialect, 'traceback': traceback.format_exc()[-600:]}, observed=exc_cls(e), expected='no exception', key=None)
         else:
             ctx.count('rejected-at-generate:' + out['error'])
         try: res['db'].disconnect()
